@@ -5,30 +5,43 @@ namespace Driver.RpcDom
 open Datacake.Rpc Driver
 
 inductive Ev where
-  | add (n inst : Nat)
+  | add (n : Nat) (keys : List Nat) (inst : Nat)
   | remove (n : Nat)
 
 structure State where
   reg : Registry := Registry.empty
   evs : List Ev := []      -- newest first
 
+/-- Service TYPE of the harness ↦ the service name it registers under.  D and E are two types
+sharing the name 3 ("shared"); S is a four-message service; P0..P7 are single-message bystanders. -/
 def svcName : String → Option Nat
-  | "A" => some 0 | "B" => some 1 | "C" => some 2 | _ => none
+  | "A" => some 0 | "B" => some 1 | "C" => some 2 | "D" => some 3 | "E" => some 3 | "S" => some 4
+  | "P0" => some 10 | "P1" => some 11 | "P2" => some 12 | "P3" => some 13
+  | "P4" => some 14 | "P5" => some 15 | "P6" => some 16 | "P7" => some 17 | _ => none
 
-/-- Handler keys of the three services of the harness (hash injectivity: distinct numbers). -/
-def keysOf : Nat → List Nat
-  | 0 => [1] | 1 => [2] | 2 => [3, 4] | _ => []
+/-- Handler keys of a service type (hash injectivity: distinct numbers; key = 100 * name + message). -/
+def keysOfType : String → List Nat
+  | "A" => [1] | "B" => [101] | "C" => [201, 202] | "D" => [301] | "E" => [302] | "S" => [401, 402, 403, 404]
+  | "P0" => [1001] | "P1" => [1101] | "P2" => [1201] | "P3" => [1301]
+  | "P4" => [1401] | "P5" => [1501] | "P6" => [1601] | "P7" => [1701] | _ => []
 
-def keyOf : String → String → Option Nat
-  | "A", "M1" => some 1 | "B", "M1" => some 2 | "C", "M1" => some 3 | "C", "M2" => some 4 | _, _ => none
+def msgNo : String → Option Nat
+  | "M1" => some 1 | "M2" => some 2 | "M3" => some 3 | "M4" => some 4 | _ => none
+
+def keyOf (s m : String) : Option Nat :=
+  match svcName s, msgNo m with
+  | some n, some j => if (keysOfType s).contains (100 * n + j) then some (100 * n + j) else none
+  | _, _ => none
+
+def ownerOf (k : Nat) : Nat := k / 100
 
 /-- The specification of C13 (`C13.registered`): the instance of the last `add` not followed by a
 `remove`, from the event history alone. -/
-def registered (evs : List Ev) (n : Nat) : Option Nat :=
+def registered (evs : List Ev) (k : Nat) : Option Nat :=
   match evs with
   | [] => none
-  | .add m inst :: rest => if m = n then some inst else registered rest n
-  | .remove m :: rest => if m = n then none else registered rest n
+  | .add _ keys inst :: rest => if keys.contains k then some inst else registered rest k
+  | .remove m :: rest => if ownerOf k = m then none else registered rest k
 
 def showCall : Option Nat → String
   | some inst => s!"ok:{inst}"
@@ -48,7 +61,7 @@ def step (st : State) (toks : List String) : State × String :=
   | ["add", s, inst] =>
     match svcName s, inst.toNat? with
     | some n, some inst =>
-      ({ reg := addHandlers st.reg n (keysOf n) inst, evs := .add n inst :: st.evs }, "ok")
+      ({ reg := addHandlers st.reg n (keysOfType s) inst, evs := .add n (keysOfType s) inst :: st.evs }, "ok")
     | _, _ => (st, "bad-op")
   | ["remove", s] =>
     match svcName s with
@@ -56,8 +69,8 @@ def step (st : State) (toks : List String) : State × String :=
     | none => (st, "bad-op")
   | ["call", s, m] =>
     match svcName s, keyOf s m with
-    | some n, some k =>
-      (st, showCall (getHandler st.reg k) ++ "\t#spec " ++ showCall (registered st.evs n))
+    | some _, some k =>
+      (st, showCall (getHandler st.reg k) ++ "\t#spec " ++ showCall (registered st.evs k))
     | _, _ => (st, "bad-op")
   | _ => (st, "bad-op")
 
